@@ -530,6 +530,9 @@ func (e *Enc) havocAll(st *bstate, why string) {
 	}
 	for _, n := range append([]string(nil), e.W.compOrder...) {
 		c := e.W.comps[n]
+		if c.Kind == "global-ext" {
+			continue // package-level variables of dependencies (sentinel errors etc.) are treated as constants
+		}
 		if c.Kind == "alloc" {
 			old := e.heapVar(st, c)
 			nv := e.newHeapVersion(st, c)
@@ -668,7 +671,7 @@ func (e *Enc) val(v ssa.Value) Val {
 	case *ssa.Global:
 		pt := x.Type().(*types.Pointer).Elem()
 		name := "GV!" + sanitize(x.Pkg.Pkg.Name()+"."+x.Name())
-		c := e.W.comp(name, e.W.sortOf(pt), "global")
+		c := e.W.comp(name, e.W.sortOf(pt), globalKind(x.Pkg.Pkg))
 		return Val{Typ: x.Type(), Loc: &Loc{Comp: c, Typ: pt}}
 	case *ssa.Function:
 		n := "fn!" + sanitize(x.String())
@@ -965,3 +968,12 @@ func instrIndex(in ssa.Instruction) int {
 }
 
 var dummyPkg = types.NewPackage("verif/builtin", "builtin")
+
+// globalKind: package-level variables of packages outside the module are modelled as
+// constants (they are sentinel values such as io.EOF; nothing in the module assigns them).
+func globalKind(p *types.Package) string {
+	if p != nil && !strings.HasPrefix(p.Path(), modPath) {
+		return "global-ext"
+	}
+	return "global"
+}
